@@ -218,6 +218,31 @@ def run(ctx):
                               f'{type(exc).__name__}: {exc}')
                 os.remove(path)
                 n += 1
+            # failed reads (and other calls) must leave nothing behind for the next read
+            good = os.path.join(d, 'good.syx')
+            write_syx_file(good, [Message('sysex', data=(9, 8, 7))])
+            for text in ('F0 01 F7\nF0 02 F7\nF0 GG F7\n', 'F0 03 F7 F0 04', 'F0 05 F7\nxx'):
+                path = os.path.join(d, f'seq{ctx.count_files}.syx')
+                ctx.count_files += 1
+                with open(path, 'w') as f:
+                    f.write(text)
+                case = {'kind': 'sequence', 'first': text}
+                try:
+                    read_syx_file(path)
+                except ValueError:
+                    pass
+                got = read_syx_file(good)
+                ctx.check('read(write(L)) == sysex(L) [binary]', data_of(got) == [(9, 8, 7)], 'leftover-from-failed-read',
+                          case, data_of(got))
+                os.remove(path)
+                n += 1
+            for name, thunk in gen.perturbations():
+                gen.run_quietly(thunk)
+                got = read_syx_file(good)
+                ctx.check('read(write(L)) == sysex(L) [binary]', data_of(got) == [(9, 8, 7)], 'leftover-from-other-call',
+                          {'kind': 'sequence', 'after': name}, data_of(got))
+                n += 1
+            os.remove(good)
             # empty list and only non-sysex
             for msgs in ([], [Message('note_on'), Message('clock')]):
                 for plaintext in (False, True):
